@@ -5,6 +5,7 @@ import (
 	stdjson "encoding/json"
 	"fmt"
 	"math"
+	"math/big"
 	"reflect"
 	"strconv"
 	"strings"
@@ -280,6 +281,76 @@ func c02Floats(c *work.Ctx) {
 			push(fmt.Sprintf("%se%d", m, e))
 			push(fmt.Sprintf("%c.%sE%+d", m[0], m[1:]+"0", e+len(m)-1))
 		}
+	}
+	// (4) rounding midpoints: for every binade of float32 (and a sample of float64 binades), the exact decimal
+	// expansion of the point half-way between two neighbouring values, and that expansion one unit of its last
+	// digit up and down. A conversion that goes through a wider or narrower type first (float64 then float32, an
+	// integer fast path) rounds twice and lands on the wrong neighbour exactly here. Integers are written plainly
+	// (that is what a fast path looks at), fractions positionally or with an exponent.
+	midpoints := func(mantBits, minExp, maxExp, step int) {
+		one := big.NewInt(1)
+		for e := minExp; e <= maxExp; e += step {
+			for _, mant := range []int64{0, 1, 2, (1 << uint(mantBits)) - 2, (1 << uint(mantBits)) - 1, 0x2AAAAA & ((1 << uint(mantBits)) - 1)} {
+				// value = (2^mantBits + mant + 1/2) * 2^(e-mantBits) = (2*(2^mantBits+mant)+1) * 2^(e-mantBits-1)
+				num := new(big.Int).Add(new(big.Int).Lsh(big.NewInt((1<<uint(mantBits))+mant), 1), one)
+				sh := e - mantBits - 1
+				r := new(big.Rat)
+				if sh >= 0 {
+					r.SetInt(new(big.Int).Lsh(num, uint(sh)))
+				} else {
+					r.SetFrac(num, new(big.Int).Lsh(one, uint(-sh)))
+				}
+				var txt string
+				if r.IsInt() {
+					txt = r.Num().String()
+				} else {
+					txt = r.FloatString(-sh) // exact: the denominator is a power of two
+				}
+				if len(txt) > 120 {
+					continue
+				}
+				digits := []byte(txt)
+				for _, d := range []int{0, 1, -1} {
+					t := append([]byte(nil), digits...)
+					// perturb the last digit (with carry/borrow over the digits, the point is skipped)
+					i := len(t) - 1
+					for d != 0 && i >= 0 {
+						if t[i] == '.' {
+							i--
+							continue
+						}
+						v := int(t[i]-'0') + d
+						switch {
+						case v > 9:
+							t[i] = '0'
+							i--
+						case v < 0:
+							t[i] = '9'
+							i--
+						default:
+							t[i] = byte('0' + v)
+							d = 0
+						}
+					}
+					if d != 0 {
+						continue
+					}
+					lit := strings.TrimLeft(string(t), "0")
+					if lit == "" || lit[0] == '.' {
+						lit = "0" + lit
+					}
+					push(lit)
+					push("-" + lit)
+				}
+			}
+		}
+	}
+	if c.Quick() {
+		midpoints(23, -30, 127, 1)
+		midpoints(52, -10, 1000, 97)
+	} else {
+		midpoints(23, -126, 127, 1)
+		midpoints(52, -300, 1023, 13)
 	}
 	type s64 struct {
 		F float64 `json:"f"`
